@@ -16,6 +16,8 @@ STD_CELLS = [
     ("gw-model-plain-proposal", "GW5", {"max_iteration": 500}),
     ("clustering", "G2u", {"flow_proposal_class": "ClusteringFlowProposal", "max_iteration": 600}),
     ("augmented-marginalised", "G2u", {"flow_proposal_class": "AugmentedFlowProposal", "marginalise_augment": True, "n_marg": 5, "max_iteration": 500}),
+    ("augmented", "G2u", {"flow_proposal_class": "AugmentedFlowProposal", "max_iteration": 600}),
+    ("no-uninformed", "G2u", {"maximum_uninformed": 0}),
     ("latent-nball", "G2u", {"latent_prior": "uniform_nball"}),
     ("latent-nball-novolume", "G2u", {"latent_prior": "uniform_nball", "constant_volume_mode": False}),
     ("latent-gaussian", "G2u", {"latent_prior": "gaussian", "constant_volume_mode": False, "max_iteration": 500}),
@@ -50,7 +52,7 @@ STD_CELLS = [
     ("tolerance-loose", "G2u", {"stopping": 0.5}),
 ]
 
-QUICK_STD = ["default-G2u", "default-G4u", "nonuniform-analytic", "nonuniform-rejection-box-draws", "ties-nlive50", "ties-analytic", "gw-proposal", "clustering", "augmented-marginalised",
+QUICK_STD = ["default-G2u", "default-G4u", "nonuniform-analytic", "nonuniform-rejection-box-draws", "ties-nlive50", "ties-analytic", "gw-proposal", "clustering", "augmented-marginalised", "augmented", "no-uninformed",
              "latent-nball", "latent-gaussian", "latent-flow", "radius-worst-point", "radius-min-max", "truncate-log-q", "accumulate-weights", "drawsize-small",
              "reparam-logit", "reparam-inversion-split", "reparam-inversion-duplicate", "reparam-angle", "flow-maf", "flow-nsf", "nlive-10", "nlive-300",
              "memory", "reset-weights", "uninformed-50", "shrinkage-t", "pool-2", "capped-300", "prior-sampling", "tolerance-loose"]
